@@ -11,7 +11,7 @@ literals with captures and the application of callable variables.
     captures: `Store` (the argument → slot `#captures`), the branches, `Reset(#captures)` — exactly
     `compileT caps (.block body)` of Compile2, after which the frame is exhausted and the VM returns;
   * a callable variable `x` in a chain (compile_access): `Load(slot x)`, `Call` — the flowing value is the
-    argument.
+    argument; a NILARY one ignores it: `Load(slot x), Rotate(2), Pop, Tuple(NIL), Rotate(2), Call`.
 
 The meaning functions are those of Compile2 with one more parameter `cs`, the meaning of applying a
 function value to an argument; `callSem` ties the knot by fuel over the program's function table `Φ`.
@@ -37,6 +37,8 @@ mutual
     | fnlit (fi : Nat) (caps : List String)
     /-- the callable variable `x` applied to the flowing value -/
     | call (x : String)
+    /-- the NILARY callable variable `x` in a chain: it ignores the flowing value and is called with nil -/
+    | callNil (x : String)
   inductive Ch3 where
     | nil
     | cons (t : T3) (rest : Ch3)
@@ -90,6 +92,8 @@ mutual
     | .fnlit fi caps => ([.pop] ++ (loadsOf Γ caps ++ [.function fi]), Γ)
     -- compile_access of a callable variable: the flowing value stays as the argument
     | .call x => ([.load ((slot Γ x).getD 0), .call], Γ)
+    -- a nilary callee: the flowing value is replaced by nil under the function
+    | .callNil x => ([.load ((slot Γ x).getD 0), .rotate 2, .pop, .tuple 0, .rotate 2, .call], Γ)
   def compileCh (Γ : List String) : Ch3 → List Instr × List String
     | .nil => ([], Γ)
     | .cons t r =>
@@ -161,6 +165,7 @@ mutual
     | .block bs => (evalBrs cs (Γ ++ [""]) (L ++ [flow]) flow bs).map fun v => (v, L)
     | .fnlit fi caps => (capVals Γ L caps).map fun ws => (.fn fi (ValList.ofList ws), L)
     | .call x => (slot Γ x).bind fun i => (L[i]?).bind fun fv => (cs fv flow).map fun res => (res, L)
+    | .callNil x => (slot Γ x).bind fun i => (L[i]?).bind fun fv => (cs fv Val.nil).map fun res => (res, L)
   def evalCh (cs : Val → Val → Option Val) (Γ : List String) (L : List Val) (flow : Val) : Ch3 → Option (Val × List Val)
     | .nil => some (flow, L)
     | .cons t r => (evalT cs Γ L flow t).bind fun a => evalCh cs (compileT Γ t).2 a.2 a.1 r
@@ -204,6 +209,7 @@ mutual
     | .block bs => bs.isNil = false ∧ wfBrs P bs
     | .fnlit fi caps => ∃ fn, P.functions[fi]? = some fn ∧ fn.captures = caps.length
     | .call _ => True
+    | .callNil _ => True
   def wfCh (P : Prog) : Ch3 → Prop
     | .nil => True
     | .cons t r => wfT P t ∧ wfCh P r
